@@ -67,6 +67,7 @@ func init() {
 		{Name: "c09-small", MinSteps: 2, MaxSteps: 4, Durs: someDurs, PWaitFor: 40, PDeploySlow: 30, PDisabled: 20, PNoSignal: 20},
 		{Name: "c09-errpath", MinSteps: 1, MaxSteps: 3, Durs: []int64{0, 5, 40}, Modes: []string{"err", "crash"}, PBad: 40, ErrOutput: true, PDeployFail: 20},
 	}
+	c09 = append(c09, &ir.Profile{Name: "c09-loop", MinSteps: 1, MaxSteps: 2, Durs: []int64{0, 1, 10}, Foreach: 70, PWaitFor: 20})
 	register(&PropDef{ID: "C09",
 		Gen:   func(t *rapid.T) *Case { return genS1(t, "C09", c09, true) },
 		Check: s1Check("C09", OracleTerminates, OracleResult),
@@ -115,7 +116,7 @@ func init() {
 	// ---- C04: a step never executes if a prerequisite failed, it is disabled or stopped first ----
 	c04 := []*ir.Profile{
 		{Name: "c04-failing", MinSteps: 2, MaxSteps: 6, Durs: someDurs, Modes: allBad, PBad: 45, PDeployFail: 25, PWaitFor: 60, PErrPathRef: 20, MaxOutputs: 3, ErrOutput: true},
-		{Name: "c04-disabled", MinSteps: 2, MaxSteps: 5, Durs: someDurs, Modes: []string{"err"}, PBad: 20, PDisabled: 70, PWaitFor: 50, MaxOutputs: 3, ErrOutput: true, PErrPathRef: 30},
+		{Name: "c04-disabled", PLiteralFalse: 30, MinSteps: 2, MaxSteps: 5, Durs: someDurs, Modes: []string{"err"}, PBad: 20, PDisabled: 70, PWaitFor: 50, MaxOutputs: 3, ErrOutput: true, PErrPathRef: 30},
 	}
 	c04 = append(c04, &ir.Profile{Name: "c04-stop-before-start", MinSteps: 0, MaxSteps: 2, Durs: []int64{0, 5}, StopBeforeStart: true})
 	register(&PropDef{ID: "C04",
@@ -160,6 +161,12 @@ func init() {
 	}
 	register(&PropDef{ID: "C08",
 		Gen: func(t *rapid.T) *Case {
+			if rapid.IntRange(0, 5).Draw(t, "closed_result") == 0 {
+				// a step closed while it waits (caller cancellation) reports closed.result; the run may return it
+				c := genS2(t, "C08", []*ir.Profile{{Name: "c08-closed", MinSteps: 1, MaxSteps: 2, Durs: []int64{0, 5}, ClosedOutput: true, PNoSignal: 30}}, 100, 0, 0)
+				c.Clients[0].CancelAtDecision, c.Clients[0].CancelAfterUS = 0, rapid.SampledFrom([]int64{100, 5000, 100000, 1000000}).Draw(t, "closed_cancel_us")
+				return c
+			}
 			if rapid.IntRange(0, 3).Draw(t, "loops_cancelled") == 0 {
 				// a loop that is closed in the middle of its run (caller cancellation) still has to report well-typed data
 				return genS2(t, "C08", c08[1:2], 70, 0, 0)
